@@ -35,7 +35,7 @@ def kw_class(methods):
 class Check(Prop):
     ID = "C14"
     RULE = ("cases = one call site with 2-5 keyword arguments against (a) a user-defined method with required/defaulted keyword "
-            "parameters (and 0-2 positionals), (b) a class method of a generated configured class Kwx (required and is_default keyword "
+            "parameters (and 0-2 positionals), optionally a **opts keyword rest whose hash is read in the body (values, lookup, keys), (b) a class method of a generated configured class Kwx (required and is_default keyword "
             "arguments, appended to the shipped configuration), (c) the shipped Test.keyword_json_test*. The call may omit required keys, "
             "pass unknown keys and wrong value types. Oracle: `ti -i` output is byte-identical for every permutation of the keyword "
             "arguments (all permutations up to 4 keys, 12 sampled for 5). Non-trivial = >= 2 keyword arguments at the call; labels: "
@@ -84,6 +84,14 @@ class Check(Prop):
             if draw(st.integers(0, 14)) == 0 and npos:
                 pos = pos[:-1]
             if user:
+                if draw(st.integers(0, 3)) == 0:
+                    # keyword rest: the method sees the keywords as a hash; order-sensitive reads of it must not depend on call order
+                    ndecl = draw(st.integers(0, max(0, nk - 2)))
+                    params = ["p%d" % i for i in range(npos)] + ["%s:%s" % (k, (" " + LIT[t]) if dflt else "") for k, t, dflt in decl[:ndecl]] + ["**opts"]
+                    reads = draw(st.sampled_from([["opts.values"], ["opts[:%s]" % keys[-1]], ["dbtp opts.values", "dbtp opts[:%s]" % keys[0], "opts"],
+                                                  ["ov = opts.values", "ov"], ["opts.keys"]]))
+                    pre = "def um(%s)\n%s\nend\n" % (", ".join(params), "\n".join("  " + r for r in reads))
+                    return {"pre": pre, "callee": "um", "pos": pos, "kws": kws, "cfg": None, "kwrest": True}
                 params = ["p%d" % i for i in range(npos)] + ["%s:%s" % (k, (" " + LIT[t]) if dflt else "") for k, t, dflt in decl]
                 body = "  " + (decl[0][0] if draw(st.booleans()) else "1")
                 pre = "def um(%s)\n%s\nend\n" % (", ".join(params), body)
@@ -102,7 +110,7 @@ class Check(Prop):
     def evaluate(self, case, rt):
         kws = case["kws"]
         key = run.sha(case["pre"], case["callee"], ",".join(case["pos"]), ",".join(sorted(kws)), case.get("cfg") or "")
-        labels = ["user" if case["callee"] == "um" else ("shipped" if case.get("origin") == "shipped" else "configured"), "nkw:%d" % len(kws)]
+        labels = (["kwrest"] if case.get("kwrest") else []) + ["user" if case["callee"] == "um" else ("shipped" if case.get("origin") == "shipped" else "configured"), "nkw:%d" % len(kws)]
         if any(k.startswith(("zz", "zy")) for k in kws):
             labels.append("unknown-key")
         config = "shipped"
